@@ -187,6 +187,9 @@ class Interp:
             return self.branch(b)
         if isinstance(v, lib.SMap):
             raise Unsupported('truthiness of symbolic map')
+        from . import envmodel as E
+        if isinstance(v, (E.MatchVal, E.ConfigAttr, E.EnvConfig, E.CompiledPattern)):
+            return True
         return True
 
     def truth_term(self, v):
@@ -1019,6 +1022,11 @@ class Interp:
             return self.call_func(f, args, kwargs)
         if isinstance(f, lib.SpecNative):
             return f.call(self, args, kwargs)
+        from . import envmodel as E
+        if isinstance(f, E.EnvFunc):
+            return f.fn(self, args, kwargs)
+        if isinstance(f, E.ConfigAttr):
+            return self.havoc_call(f'call of configuration member {f.path}', args, kwargs)
         raise Unsupported(f'call of {type(f).__name__} {f!r}')
 
     def havoc_call(self, reason, args, kwargs):
